@@ -65,7 +65,10 @@ impl Parse for Input {
             disallow_token(auto_token)?;
             Ok(Input::Mod(parse_mod(attrs, vis, input)?))
         } else {
-            let fn_sig: syn::Signature = input.parse()?;
+            disallow_token(auto_token)?;
+            let mut fn_sig: syn::Signature = input.parse()?;
+            // `unsafe` was consumed above (it may also introduce an `unsafe trait` / `unsafe impl`)
+            fn_sig.unsafety = fn_sig.unsafety.or(unsafety);
             let fn_body = input.parse()?;
 
             Ok(Input::Fn(InputFn {
